@@ -543,3 +543,17 @@ Proof.
 Qed.
 
 End CF.
+
+(* non-vacuity: folding really rewrites this program, and (as the theorem says) does not change its behaviour *)
+Definition p_cf : stmt :=
+  (* var v0 = 1 + 2; log((0 && v0++) || (v0 < 5 ? "a" : "b")); if (true ? v0 : 0) { log(v0) } *)
+  SSeq (SVar 1%N 0%N (EBin OAdd (EConst (CInt 1%Z)) (EConst (CInt 2%Z))))
+  (SSeq (SLog (EOr (EAnd (EConst (CInt 0%Z)) (EIncDec false true 0%N))
+                   (ECond (EBin OLt (EVar 0%N) (EConst (CInt 5%Z))) (EConst (CStr 6%N)) (EConst (CStr 9%N)))))
+        (SIf (ECond (EConst (CBool true)) (EVar 0%N) (EConst (CInt 0%Z))) (SBlock (SLog (EVar 0%N))) (SBlock SSkip))).
+
+Lemma constfold_example :
+  cf_stmt p_cf <> p_cf /\
+  run_env 20 (cf_stmt p_cf) = run_env 20 p_cf /\
+  fst (run_env 20 p_cf) = [OStr 6%N; ONum 3%Z true].
+Proof. split; [|split]; vm_compute; try reflexivity. intro H; discriminate H. Qed.
